@@ -90,24 +90,27 @@ class OpAdd(Op):
         self, data: Union[MutableSequence[object], MutableMapping[str, object]]
     ) -> Union[MutableSequence[object], MutableMapping[str, object]]:
         """Apply this patch operation to _data_."""
+        # A copy, so that later modifications of the target document (by this
+        # patch or the caller) can't change the value held by the patch.
+        value = copy.deepcopy(self.value)
         parent, obj = self.path.resolve_parent(data)
         if parent is None:
             # Replace the root object.
             # The following op, if any, will raise a JSONPatchError if needed.
-            return self.value  # type: ignore
+            return value  # type: ignore
 
         target = self.path.parts[-1]
         if isinstance(parent, MutableSequence):
             if obj is UNDEFINED:
                 # An index equal to the length of the array appends, like "-".
                 if target == "-" or target == len(parent):
-                    parent.append(self.value)
+                    parent.append(value)
                 else:
                     raise JSONPatchError("index out of range")
             else:
-                parent.insert(int(target), self.value)
+                parent.insert(int(target), value)
         elif isinstance(parent, MutableMapping):
-            parent[_member_name(parent, target)] = self.value
+            parent[_member_name(parent, target)] = value
         else:
             raise JSONPatchError(
                 f"unexpected operation on {parent.__class__.__name__!r}"
@@ -136,26 +139,29 @@ class OpAddNe(OpAdd):
         self, data: Union[MutableSequence[object], MutableMapping[str, object]]
     ) -> Union[MutableSequence[object], MutableMapping[str, object]]:
         """Apply this patch operation to _data_."""
+        # A copy, so that later modifications of the target document (by this
+        # patch or the caller) can't change the value held by the patch.
+        value = copy.deepcopy(self.value)
         parent, obj = self.path.resolve_parent(data)
         if parent is None:
             # Replace the root object.
             # The following op, if any, will raise a JSONPatchError if needed.
-            return self.value  # type: ignore
+            return value  # type: ignore
 
         target = self.path.parts[-1]
         if isinstance(parent, MutableSequence):
             if obj is UNDEFINED:
                 # Arrays are handled exactly like _add_.
                 if target == "-" or target == len(parent):
-                    parent.append(self.value)
+                    parent.append(value)
                 else:
                     raise JSONPatchError("index out of range")
             else:
-                parent.insert(int(target), self.value)
+                parent.insert(int(target), value)
         elif isinstance(parent, MutableMapping):
             target = _member_name(parent, target)
             if target not in parent:
-                parent[target] = self.value
+                parent[target] = value
         return data
 
 
@@ -176,20 +182,23 @@ class OpAddAp(OpAdd):
         self, data: Union[MutableSequence[object], MutableMapping[str, object]]
     ) -> Union[MutableSequence[object], MutableMapping[str, object]]:
         """Apply this patch operation to _data_."""
+        # A copy, so that later modifications of the target document (by this
+        # patch or the caller) can't change the value held by the patch.
+        value = copy.deepcopy(self.value)
         parent, obj = self.path.resolve_parent(data)
         if parent is None:
             # Replace the root object.
             # The following op, if any, will raise a JSONPatchError if needed.
-            return self.value  # type: ignore
+            return value  # type: ignore
 
         target = self.path.parts[-1]
         if isinstance(parent, MutableSequence):
             if obj is UNDEFINED:
-                parent.append(self.value)
+                parent.append(value)
             else:
-                parent.insert(int(target), self.value)
+                parent.insert(int(target), value)
         elif isinstance(parent, MutableMapping):
-            parent[_member_name(parent, target)] = self.value
+            parent[_member_name(parent, target)] = value
         else:
             raise JSONPatchError(
                 f"unexpected operation on {parent.__class__.__name__!r}"
@@ -249,18 +258,21 @@ class OpReplace(Op):
         self, data: Union[MutableSequence[object], MutableMapping[str, object]]
     ) -> Union[MutableSequence[object], MutableMapping[str, object]]:
         """Apply this patch operation to _data_."""
+        # A copy, so that later modifications of the target document (by this
+        # patch or the caller) can't change the value held by the patch.
+        value = copy.deepcopy(self.value)
         parent, obj = self.path.resolve_parent(data)
         if parent is None:
-            return self.value  # type: ignore
+            return value  # type: ignore
 
         if isinstance(parent, MutableSequence):
             if obj is UNDEFINED:
                 raise JSONPatchError("can't replace nonexistent item")
-            parent[int(self.path.parts[-1])] = self.value
+            parent[int(self.path.parts[-1])] = value
         elif isinstance(parent, MutableMapping):
             if obj is UNDEFINED:
                 raise JSONPatchError("can't replace nonexistent property")
-            parent[_member_name(parent, self.path.parts[-1])] = self.value
+            parent[_member_name(parent, self.path.parts[-1])] = value
         else:
             raise JSONPatchError(
                 f"unexpected operation on {parent.__class__.__name__!r}"
